@@ -651,6 +651,14 @@ class ExprMixin:
         tt, ff = self.fork(st, ops.dict_has(d, key))
         if tt is not None:
             outs += self.getitem(tt, fr, d, key)
+        if ff is not None and d.kind.default_cls == '$value':
+            obj = ops.empty_of(d.kind.val)
+            self.fold_empty(ff, obj) if isinstance(d.kind.val, KDict) else None
+            new = ops.dict_set(d, key, obj)
+            self.fold_update(ff, fr, d, new, key, obj)
+            for s3, oc in self.assign(base_expr, new, ff, fr):
+                outs.append((s3, obj if oc[0] == 'next' else oc[1]))
+            ff = None
         if ff is not None:
             for s2, obj in self.construct(ff, fr, ClassVal(d.kind.default_cls, self.reg.classes[d.kind.default_cls].module), [], {}):
                 if is_exc(obj):
